@@ -343,3 +343,111 @@ Section Events.
                (CCntTrack name (ps_next_observe (psr_observe r)))). constructor.
   Qed.
 End Events.
+
+(* ------------------------------------------------------------------ whole histories *)
+Section Histories.
+  Variable pol : Z -> Z -> Z.
+  Variable alloc : list bytes -> bytes.
+  Variable c : ps_cfg.
+  Hypothesis cfg_dyn : psc_dyn c = true.
+  Hypothesis cfg_obs : psc_obs c = true.
+  Hypothesis cfg_cnt : psc_cnt c = true.
+  Hypothesis la_pos : 0 < psc_la c.
+  Hypothesis lt_pos : 0 < psc_lt c.
+
+  (* memory and abstract file state after a list of events *)
+  Fixpoint ps_hist_state (evs : list ps_event) (m : ps_mem) (A : ps_abs) : ps_mem * ps_abs :=
+    match evs with
+    | [] => (m, A)
+    | e :: tl => ps_hist_state tl (fst (ps_ev_out alloc e m)) (ps_abs_calls (ps_ev_calls alloc c e m) A)
+    end.
+
+  (* every call of the history has well-formed arguments; total number of calls *)
+  Fixpoint ps_hist_wf (evs : list ps_event) (m : ps_mem) : Prop :=
+    match evs with
+    | [] => True
+    | e :: tl => ps_ev_server e /\ Forall (ps_call_wf (psc_la c) (psc_lt c)) (ps_ev_calls alloc c e m) /\
+                 ps_hist_wf tl (fst (ps_ev_out alloc e m))
+    end.
+  Fixpoint ps_hist_ncalls (evs : list ps_event) (m : ps_mem) : nat :=
+    match evs with
+    | [] => O
+    | e :: tl => (length (ps_ev_calls alloc c e m) + ps_hist_ncalls tl (fst (ps_ev_out alloc e m)))%nat
+    end.
+
+  Lemma ps_abs_calls_wf : forall calls A,
+    ps_abs_wf (psc_la c) (psc_lt c) A -> Forall (ps_call_wf (psc_la c) (psc_lt c)) calls ->
+    ps_abs_wf (psc_la c) (psc_lt c) (ps_abs_calls calls A) /\
+    (ps_abs_size (ps_abs_calls calls A) <= ps_abs_size A + length calls)%nat.
+  Proof.
+    induction calls as [|cl calls IH]; intros A HA Hw; cbn [ps_abs_calls length]; [split; [exact HA|lia]|].
+    inversion Hw; subst. destruct (ps_abs_call_wf pol _ _ cl A HA H1) as [H3 H4].
+    destruct (IH _ H3 H2) as [H5 H6]. split; [exact H5|lia].
+  Qed.
+
+  (* C17_atomic + C17_update_correct over whole event histories: at kill point k the files hold
+     the abstract state after the completed events (evs1) plus the first j updater calls of the
+     event that was interrupted *)
+  Theorem ps_hist_crash : forall evs m sent A s k,
+    ps_abs_wf (psc_la c) (psc_lt c) A -> ps_hist_wf evs m ->
+    (ps_abs_size A + ps_hist_ncalls evs m < psc_fuel c)%nat ->
+    ps_tmpw s -> ps_holdsA s A ->
+    exists evs1 rest j,
+      evs = evs1 ++ rest /\
+      ps_holdsA (ps_runk pol (ps_hist alloc c evs m sent) k s)
+        (ps_abs_calls (firstn j (match rest with
+                                 | e :: _ => ps_ev_calls alloc c e (fst (ps_hist_state evs1 m A))
+                                 | [] => []
+                                 end)) (snd (ps_hist_state evs1 m A))).
+  Proof.
+    induction evs as [|e evs IH]; intros m sent A s k HA Hw Hsz Hs Hh.
+    - exists [], [], O. split; [reflexivity|]. cbn [ps_hist ps_hist_state fst snd firstn ps_abs_calls].
+      destruct k; exact Hh.
+    - destruct Hw as (Hsrv & Hcw & Hw'). cbn [ps_hist_ncalls] in Hsz.
+      pose proof (ps_ev_seqof pol alloc c cfg_dyn cfg_obs cfg_cnt e m Hsrv) as Hseq.
+      destruct (ps_seqof_run pol (psc_la c) (psc_lt c) la_pos lt_pos (psc_fuel c) _ _ _ _ Hseq
+                             A s HA Hcw ltac:(lia) Hs Hh) as (R1 & R2 & R3 & R4).
+      cbn [ps_hist]. rewrite ps_runk_bind.
+      destruct (k <=? ps_nops pol (ps_ev alloc c e m) s)%nat.
+      + destruct (R4 k) as (j & Hj & Hjh).
+        exists [], (e :: evs), j. split; [reflexivity|]. cbn [ps_hist_state fst snd]. exact Hjh.
+      + destruct (ps_ev_out alloc e m) as [m' sn] eqn:Eo.
+        destruct (ps_abs_calls_wf _ A HA Hcw) as [HA' Hsz'].
+        destruct (IH m' (sent ++ sn) (ps_abs_calls (ps_ev_calls alloc c e m) A)
+                     (snd (ps_run pol (ps_ev alloc c e m) s))
+                     (k - ps_nops pol (ps_ev alloc c e m) s)%nat HA')
+          as (evs1 & rest & j & He & Hjh); try assumption; try exact Hw'; try (cbn [fst] in Hsz; lia).
+        exists (e :: evs1), rest, j. split; [cbn [List.app]; congruence|].
+        unfold ps_result in *. rewrite R1. cbn [ps_hist_state]. rewrite Eo. cbn [fst]. exact Hjh.
+  Qed.
+
+  (* the complete run *)
+  Theorem ps_hist_run : forall evs m sent A s,
+    ps_abs_wf (psc_la c) (psc_lt c) A -> ps_hist_wf evs m ->
+    (ps_abs_size A + ps_hist_ncalls evs m < psc_fuel c)%nat ->
+    ps_tmpw s -> ps_holdsA s A ->
+    exists sn, fst (ps_run pol (ps_hist alloc c evs m sent) s) =
+                 Some (fst (ps_hist_state evs m A), sent ++ sn) /\
+      ps_holdsA (snd (ps_run pol (ps_hist alloc c evs m sent) s)) (snd (ps_hist_state evs m A)).
+  Proof.
+    induction evs as [|e evs IH]; intros m sent A s HA Hw Hsz Hs Hh.
+    - exists []. cbn [ps_hist ps_run ps_hist_state fst snd]. rewrite app_nil_r. split; [reflexivity|exact Hh].
+    - destruct Hw as (Hsrv & Hcw & Hw'). cbn [ps_hist_ncalls] in Hsz.
+      pose proof (ps_ev_seqof pol alloc c cfg_dyn cfg_obs cfg_cnt e m Hsrv) as Hseq.
+      destruct (ps_seqof_run pol (psc_la c) (psc_lt c) la_pos lt_pos (psc_fuel c) _ _ _ _ Hseq
+                             A s HA Hcw ltac:(lia) Hs Hh) as (R1 & R2 & R3 & R4).
+      cbn [ps_hist]. rewrite ps_run_bind.
+      destruct (ps_run pol (ps_ev alloc c e m) s) as [r s1] eqn:Er.
+      assert (R1' : r = Some (ps_ev_out alloc e m)).
+      { transitivity (fst (ps_run pol (ps_ev alloc c e m) s)); [rewrite Er; reflexivity|exact R1]. }
+      assert (Es : s1 = snd (ps_run pol (ps_ev alloc c e m) s)) by (rewrite Er; reflexivity).
+      assert (R2' : ps_holdsA s1 (ps_abs_calls (ps_ev_calls alloc c e m) A)) by (rewrite Es; exact R2).
+      assert (R3' : ps_tmpw s1) by (rewrite Es; exact R3).
+      clear R1 R2 R3 Es. subst r.
+      destruct (ps_ev_out alloc e m) as [m' sn] eqn:Eo.
+      destruct (ps_abs_calls_wf _ A HA Hcw) as [HA' Hsz'].
+      destruct (IH m' (sent ++ sn) _ s1 HA') as (sn' & F1 & F2); try assumption; try exact Hw'; try (cbn [fst] in Hsz; lia).
+      exists (sn ++ sn'). cbn [ps_hist_state]. rewrite Eo. cbn [fst]. cbv beta iota zeta.
+      split; [rewrite F1, <- app_assoc; reflexivity|exact F2].
+  Qed.
+End Histories.
